@@ -283,7 +283,9 @@ func stripObs(l string) string {
 
 // execCase runs the op lines of one case and returns them followed by the observation lines.
 func (r *runner) execCase(ops []string) (out []string, err error) {
-	var c cfg
+	var c, cb cfg
+	cb = cfg{form: "s", lv: "111", rs: "000", hist: -1, win: 2}
+	extra := map[string]string{}
 	var body [][]string
 	for _, raw := range ops {
 		l := stripObs(raw)
@@ -292,11 +294,32 @@ func (r *runner) execCase(ops []string) (out []string, err error) {
 			continue
 		}
 		switch t[0] {
-		case "cfg":
-			if c, err = parseCfg(t); err != nil {
+		case "cfg", "cfgb":
+			// inh= / catb= belong to form i only
+			var keep []string
+			for _, kv := range t {
+				if strings.HasPrefix(kv, "inh=") || strings.HasPrefix(kv, "catb=") {
+					extra[kv[:strings.IndexByte(kv, '=')]] = kv[strings.IndexByte(kv, '=')+1:]
+				} else {
+					keep = append(keep, kv)
+				}
+			}
+			if t[0] == "cfg" {
+				c, err = parseCfg(keep)
+			} else {
+				cb, err = parseCfg(keep)
+			}
+			if err != nil {
 				return nil, err
 			}
 			out = append(out, l)
+		case "pa", "pb":
+			if len(t) != 4 {
+				return nil, fmt.Errorf("bad op %q", l)
+			}
+			body = append(body, t)
+			out = append(out, l)
+		case "eventsa", "eventsb":
 		case "p", "b", "v", "restart":
 			body = append(body, t)
 			out = append(out, l)
@@ -305,6 +328,17 @@ func (r *runner) execCase(ops []string) (out []string, err error) {
 		default:
 			return nil, fmt.Errorf("unknown op %q", l)
 		}
+	}
+	if c.form == "i" {
+		for _, t := range body {
+			if t[0] != "pa" && t[0] != "pb" {
+				return nil, fmt.Errorf("form i takes pa/pb ops only")
+			}
+		}
+		if c.lv == "000" || cb.lv == "000" {
+			return nil, fmt.Errorf("form i needs a level expression on both alerts (markers)")
+		}
+		return r.execInhibit(c, extra, cb, body, out)
 	}
 	tm, err := r.get()
 	if err != nil {
